@@ -1,15 +1,125 @@
-import MpfVerif.Model.Config
-import MpfVerif.Gen.SpecTable
+import MpfVerif.Lemmas.Config
 /-!
 # C12 — config validation returns well-typed complete configs or rejects
+
+`Gen/TimeSuffix.lean` and `Gen/SpecTable.lean` are regenerated from `utility_functions.py` / `config_spec.yaml`
+on every check; the table theorems below are re-checked against them.
 -/
 namespace MpfVerif.C12
 open MpfVerif.Config MpfVerif.Gen
 
-/-- every float-converted branch of `string_to_ms` rounds its product (never truncates it) -/
+/-! ## the time-suffix table of `Util.string_to_ms` (generated) -/
+
+/-- every float-converted branch rounds its product (never truncates it: `int(1.001 * 1000) = 1000`) -/
 theorem time_table_rounds : ∀ e ∈ TimeSuffix.table, e.floatConv = true → e.outer = "round" := by decide
 
-/-- every branch slices off exactly its own suffix -/
+/-- every branch slices off exactly its own suffix (the `'MSEC'`-caught-by-`'MS'` defect had slice 2 for a 4-letter suffix) -/
 theorem time_table_slice_matches : ∀ e ∈ TimeSuffix.table, ∀ s ∈ e.suffixes, s.length = e.slice := by decide
+
+/-- no branch is dead: no suffix of a later branch ends with a suffix tested by an earlier branch -/
+theorem time_table_no_shadow : noShadow TimeSuffix.table = true := by decide
+
+/-- the multipliers are exactly value-of-unit in ms: ms/msec ×1, d ×86 400 000, h ×3 600 000, m ×60 000, s/sec ×1000 -/
+theorem time_table_units :
+    TimeSuffix.table.map (fun e => (e.suffixes, e.mults.foldl (· * ·) 1))
+      = [(["MS"], 1), (["MSEC"], 1), (["D"], 86400000), (["H"], 3600000), (["M"], 60000), (["S"], 1000), (["SEC"], 1000)] := by
+  decide
+
+/-- at most two multiplications per branch — the shape `time_value_times_unit` covers -/
+theorem time_table_mult_chain : ∀ e ∈ TimeSuffix.table, e.mults.length ≤ 2 := by decide
+
+/-- **value × unit**: with float parse and float multiply modelled by any rounding function of relative error
+≤ 2⁻⁵³, `round(float(d) * U)` and `round(float(d) * U₁ * U₂)` return exactly `d·U` whenever that product is a whole
+number of ms with magnitude ≤ 2⁴⁹ — for every decimal literal `d` and every unit of the table (`time_table_units`). -/
+theorem time_value_times_unit (rnd : ℚ → ℚ) (hr : RelErr (1 / 2 ^ 53) rnd) (d : ℚ) (U₁ U₂ : ℚ) (n : ℤ)
+    (hU₁ : 0 ≤ U₁) (hU₂ : 0 ≤ U₂) (hn : d * U₁ * U₂ = n) (hb : |d * U₁ * U₂| ≤ 2 ^ 49) :
+    round (rnd (rnd (rnd d * U₁) * U₂)) = n :=
+  round_recovers2 rnd hr d U₁ U₂ n hU₁ hU₂ hn hb
+
+/-- one multiplication (`S`, `SEC`: `round(float(d) * 1000)`) -/
+theorem time_value_times_unit_single (rnd : ℚ → ℚ) (hr : RelErr (1 / 2 ^ 53) rnd) (d U : ℚ) (n : ℤ)
+    (hU : 0 ≤ U) (hn : d * U = n) (hb : |d * U| ≤ 2 ^ 49) : round (rnd (rnd d * U)) = n :=
+  round_recovers1 rnd hr d U n hU hn hb
+
+/-- the exact-rational rounding used by the executable model agrees with `round` on whole numbers:
+the model's answer for a whole product is that product -/
+theorem model_round_exact (n : Int) (d : Nat) (hd : 0 < d) : roundHalfEven (n * d) d = n := by
+  unfold roundHalfEven
+  have hd' : (d : Int) ≠ 0 := by omega
+  simp [Int.mul_ediv_cancel _ hd']
+  have : (0 : Int) < d := by omega
+  omega
+
+/-! ## scalar validators -/
+
+/-- **validate_typed**: for every scalar validator except `pow2` and every YAML scalar, `validate_item` either
+rejects / raises / is outside the model, or returns a value of the declared type inside the declared range —
+in particular NaN is never returned for a ranged key. -/
+theorem validate_typed_partial (vd : V) (item out : Y) (hp : ∀ (h : vd = .pow2), False)
+    (h : validateItem vd item = .ok out) : HasType vd out = true :=
+  validate_typed_aux vd item out hp h
+
+/-- known finding D29 (kept because an existing test pins it): `pow2` returns the *unconverted* item —
+the string "16", the float 2.5 and `True` come back as they are, none of them an int power of two. -/
+theorem pow2_witness :
+    validateItem .pow2 (.str "16") = .ok (.str "16") ∧ validateItem .pow2 (.rat 5 2) = .ok (.rat 5 2)
+      ∧ validateItem .pow2 (.bool true) = .ok (.bool true) := by decide
+
+/-- non-vacuity: conversions, range ends, NaN -/
+example : validateItem (.int (some ⟨some (0, 1), some (10, 1)⟩)) (.str " 7 ") = .ok (.int 7) := by decide
+example : validateItem (.float (some ⟨some (0, 1), some (1, 1)⟩)) .nan = .reject := by decide
+example : validateItem (.float (some ⟨some (0, 1), some (1, 1)⟩)) (.str "0.25") = .ok (.rat 25 100) := by decide
+example : validateItem .ms (.str "1.001s") = .ok (.int 1001) := by decide
+example : validateItem .ms (.str "100msec") = .ok (.int 100) := by decide
+
+/-! ## section validation -/
+
+/-- an unknown key is never accepted silently -/
+theorem unknown_key_rejected (n : Nat) (spec : List KeySpec) (src : List (String × Y)) :
+    validateSection false (n + 1) spec src = none := by
+  simp [validateSection]
+
+/-- a returned config has exactly the keys of the spec, in spec order (defaults filled in) -/
+theorem all_spec_keys_present (a : Bool) (n : Nat) (spec : List KeySpec) (src : List (String × Y)) (rs)
+    (h : validateSection a n spec src = some rs) : rs.map (·.1) = spec.map (·.key) := by
+  unfold validateSection at h
+  split at h
+  · exact absurd h (by simp)
+  · simp only [Option.some.injEq] at h
+    subst h
+    simp only [List.map_map]
+    apply List.map_congr_left
+    intro ks _
+    simp only [Function.comp]
+    split <;> (try split) <;> rfl
+
+/-- a provided value is validated by its key's validator (never dropped, never replaced by the default);
+a missing required key is rejected -/
+theorem provided_key_validated (a : Bool) (n : Nat) (spec : List KeySpec) (src : List (String × Y)) (rs)
+    (h : validateSection a n spec src = some rs) (ks : KeySpec) (hk : ks ∈ spec) :
+    (∀ v, src.lookup ks.key = some v → (ks.key, validateItem ks.vd v) ∈ rs) ∧
+    (src.lookup ks.key = none → ks.default = none → (ks.key, R.reject) ∈ rs) := by
+  unfold validateSection at h
+  split at h
+  · exact absurd h (by simp)
+  · simp only [Option.some.injEq] at h
+    subst h
+    constructor
+    · intro v hv
+      exact List.mem_map.mpr ⟨ks, hk, by simp [hv]⟩
+    · intro hv hd
+      exact List.mem_map.mpr ⟨ks, hk, by simp [hv, hd]⟩
+
+/-! ## the spec itself (generated) -/
+
+/-- every validator used anywhere in `config_spec.yaml` is known: either modelled here or listed as opaque -/
+theorem all_spec_validators_known :
+    ∀ r ∈ SpecTable.table, ∀ b ∈ r.bases, b ∈ modelledValidators ∨ b ∈ opaqueValidators := by
+  decide +kernel
+
+/-- every entry has one of the five item types (or is a bare `ignore`) -/
+theorem all_spec_item_types_known :
+    ∀ r ∈ SpecTable.table, r.itemType ∈ ["single", "list", "set", "dict", "event_handler", ""] := by
+  decide +kernel
 
 end MpfVerif.C12
